@@ -47,6 +47,9 @@ type reqCase struct {
 	Cut int `json:"cut,omitempty"`
 	// PauseMs: real silence between the two reads (needs Cut)
 	PauseMs int `json:"pause_ms,omitempty"`
+	// LateReads k > 0 (level B): every k-th non-empty read of the server's connections also reports an expired read deadline
+	// (xport.PipeListener.LateEvery): the bytes belong to the request all the same
+	LateReads int `json:"late_reads,omitempty"`
 }
 
 func exception(frame []byte, code uint8) []byte {
@@ -309,6 +312,7 @@ func exchange(conn interface {
 
 func runServer(c reqCase) ([]string, error) {
 	l := xport.NewPipeListener()
+	l.LateEvery = c.LateReads
 	h := handlerFor(c)
 	// the bystander and follow-up connections need a sane handler: route by unit id 200
 	byUnit := c.Frame[6] + 1 // the bystander's unit id differs from the request's, the router tells them apart by it
@@ -562,6 +566,9 @@ func genReq(t *rapid.T, level string) reqCase {
 			}
 		}
 	}
+	if level == "B" {
+		c.LateReads = rapid.SampledFrom([]int{0, 0, 1, 2, 3}).Draw(t, "late_reads")
+	}
 	return c
 }
 
@@ -791,10 +798,13 @@ type burstCase struct {
 	Seed   uint64 `json:"seed"`
 	// IdleMs: silence between a burst and what follows (the server's read timeout is 20 ms)
 	IdleMs int `json:"idle_ms"`
+	// LateReads: see reqCase
+	LateReads int `json:"late_reads,omitempty"`
 }
 
 func runBurst(c burstCase) harness.Result {
 	l := xport.NewPipeListener()
+	l.LateEvery = c.LateReads
 	s := &server.Server{ReadTimeout: 20 * time.Millisecond, WriteTimeout: 2 * time.Second, OnErrorFunc: func(error) {}}
 	ctx, cancel := context.WithCancel(context.Background())
 	var wg sync.WaitGroup
@@ -859,7 +869,7 @@ func runBurst(c burstCase) harness.Result {
 var chkBurst = harness.Define("pipelined-bursts",
 	func(t *rapid.T) burstCase {
 		return burstCase{Per: rapid.SampledFrom([]int{1, 2, 12, 24, 25, 25, 25, 26, 50, 75}).Draw(t, "per"), Bursts: rapid.IntRange(1, 3).Draw(t, "bursts"),
-			Seed: rapid.Uint64().Draw(t, "seed"), IdleMs: rapid.SampledFrom([]int{0, 30, 60}).Draw(t, "idle_ms")}
+			Seed: rapid.Uint64().Draw(t, "seed"), IdleMs: rapid.SampledFrom([]int{0, 30, 60}).Draw(t, "idle_ms"), LateReads: rapid.SampledFrom([]int{0, 0, 1, 2, 3}).Draw(t, "late_reads")}
 	}, runBurst)
 
 func TestBursts(t *testing.T) { chkBurst.Rapid(t, harness.Pick(20, 400)) }
